@@ -217,12 +217,14 @@ def judge(scratch, module, outdir, xmx="3g", timeout=3000, parallel=16):
     shards = sorted(f for f in os.listdir(outdir) if f.startswith("trace-") and f.endswith(".ndjson"))
     jobs = []
     expected = {}
+    names = {}
     for i, f in enumerate(shards):
         path = os.path.join(outdir, f)
         n = sum(1 for _ in open(path))
         if n == 0:
             continue
         expected[i] = n
+        names[i] = f
         jobs.append((scratch, module, path, i, xmx, timeout))
     t0 = time.time()
     rejected, total, states = [], 0, 0
@@ -237,14 +239,14 @@ def judge(scratch, module, outdir, xmx="3g", timeout=3000, parallel=16):
             states += r["states"]
             extras.append(r["extra"])
             for x in r["rejected"]:
-                x["shard"] = r["idx"]
+                x["shard"] = names[r["idx"]]
                 rejected.append(x)
     log("[judge] %s: %d events in %d shards judged in %.1fs, %d rejected" % (module, total, len(jobs), time.time() - t0, len(rejected)))
     return total, rejected, states, extras
 
 
 def shard_line(outdir, shard, line):
-    path = os.path.join(outdir, "trace-%02d.ndjson" % shard)
+    path = os.path.join(outdir, shard if isinstance(shard, str) else "trace-%02d.ndjson" % shard)
     with open(path) as f:
         for i, l in enumerate(f, 1):
             if i == line:
